@@ -20,7 +20,8 @@ def assert_repo_cirq():
     import cirq
 
     f = os.path.realpath(cirq.__file__)
-    if not f.startswith('/repo/cirq-core/'):
+    root = os.path.realpath(os.environ.get('VERIF_REPO', '/repo'))
+    if not f.startswith(root + '/cirq-core/'):
         print(f'HARNESS-ERROR: cirq imported from {f}, not from /repo working tree')
         sys.exit(EXIT_INCONCLUSIVE)
 
